@@ -63,9 +63,8 @@ def Mon.next (m : Mon) (k : Kind) (e : Ev) : Option Mon :=
      | .notFrozen => if m.servingBegun then none else some m'
      | .notFound => if m.names.contains r then none else some m')
   | .request t v, .hit h => if m.servingBegun && h == expected m t v then some m' else none
-  | .request _ _, .none => some m'
-  | .freeze, .none => some m'
-  | .warmup, .none => some m'
+  -- a step that reports nothing: the goroutine moved to its next yield point, is blocked, or had finished
+  | _, .none => some m'
   | _, _ => none
 
 def monitor (kinds : List Kind) : Mon → List Ev → Option Mon
